@@ -198,7 +198,7 @@ def ilock_like(s, real):
     return s.lockmap[id(real)][1]
 
 
-def gen_schedules(ctx, nthreads, n_random, length=60):
+def gen_schedules(ctx, nthreads, n_random, length=60, two_switch=True):
     rng = ctx.rng
     for _ in range(n_random):
         # mostly-sequential schedules with a few pre-emptions find more than uniformly random ones
@@ -214,7 +214,7 @@ def gen_schedules(ctx, nthreads, n_random, length=60):
                     cur = rng.randrange(nthreads)
                 sched.append(cur)
         yield sched
-    if ctx.tier == 'thorough':
+    if ctx.tier == 'thorough' and two_switch:
         # all schedules with <= 2 switches among 2 threads over the first 24 steps
         for a in range(0, 24):
             for b in range(a, 24):
@@ -331,7 +331,7 @@ def write_point_schedules(ctx, site, make, files, cap):
 
 def run_site(ctx, site, make, files, n=None, length=60, cap=None):
     n = ctx.scale(30, 500) if n is None else n
-    for schedule in gen_schedules(ctx, 3, n, length):
+    for schedule in gen_schedules(ctx, 3, n, length, two_switch=(cap is None)):
         if run_one(ctx, site, make, files, schedule):
             return          # a hung run leaves stuck threads behind and has been reported: leave this site
     for schedule in write_point_schedules(ctx, site, make, files, ctx.scale(60, 2000) if cap is None else cap):
@@ -543,29 +543,29 @@ def site_pool(ctxmgr):
         held = {}
         clashes = []
 
+        from katdal import chunkstore_s3
+
         def use(item):
+            # the borrower works with the item for a while: a few traced lines (= pre-emption points) in between
             if id(item) in held:
                 clashes.append(id(item))
             held[id(item)] = True
-            del held[id(item)]
+            chunkstore_s3._connect_read_tuple((1, 2))
+            if held.get(id(item)) is not True:
+                clashes.append(id(item))
+            held.pop(id(item), None)
 
         def f():
             n = 0
             for _ in range(2):
                 if ctxmgr:
                     with pool() as item:
-                        if id(item) in held:
-                            clashes.append(id(item))
-                        held[id(item)] = True
+                        use(item)
                         n += 1
-                        held.pop(id(item), None)
                 else:
                     item = pool.get()
-                    if id(item) in held:
-                        clashes.append(id(item))
-                    held[id(item)] = True
+                    use(item)
                     n += 1
-                    del held[id(item)]
                     pool.put(item)
             return n
 
@@ -710,7 +710,7 @@ def run_load_lines(ctx):
                      'indexing vis/flags/weights of a v4 data set from ONE thread does not return')
         return
     with dask.config.set(scheduler='synchronous'):
-        run_site(ctx, 'load_lines', site_load_lines(ctx.seed), LOAD_FILES, n=ctx.scale(10, 120), length=1500, cap=ctx.scale(40, 1500))
+        run_site(ctx, 'load_lines', site_load_lines(ctx.seed), LOAD_FILES, n=ctx.scale(10, 120), length=1500, cap=ctx.scale(40, 600))
 
 
 def load_lines_cleanup():
